@@ -44,7 +44,31 @@ def observe(spec, fit):
         Aug = np.vstack([np.hstack([M, np.ones((M.shape[0], 1))]), np.hstack([np.ones(M.shape[1]), [0.0]])]) if M.size else np.zeros((1, 1))
         sv = np.linalg.svd(Aug, compute_uv=False) if M.size else np.array([0.0])
         out["determined"] = bool(M.size and Aug.shape[0] >= Aug.shape[1] and sv[-1] > 1e-6 * sv[0])
-        f.solve_stress(when=0, allow_negatives=False)
+        out["smin"], out["cond"] = float(sv[-1]), (float(sv[0] / sv[-1]) if sv[-1] > 0 else float("inf"))
+        # the circle fit is a black box whose answer may depend on the order in which it is handed the points: measure it
+        sens = {}
+        for be in fr.internal_big_edges:
+            if len(be.vertices) < 3:
+                continue
+            c1 = impl.ve.calculate_circle_center(list(be.vertices), method=fit)
+            c2 = impl.ve.calculate_circle_center(list(be.vertices)[::-1], method=fit)
+            worst = 0.0
+            for a in (be.vertices[0], be.vertices[-1]):
+                t1 = np.array([-(a.y - c1[1]), a.x - c1[0]])
+                t2 = np.array([-(a.y - c2[1]), a.x - c2[0]])
+                t1, t2 = t1 / np.linalg.norm(t1), t2 / np.linalg.norm(t2)
+                worst = max(worst, float(min(np.max(np.abs(t1 - t2)), np.max(np.abs(t1 + t2)))))
+            sens[canon(be.get_vertices_ids())] = worst
+        out["order_sensitivity"] = sens
+        with impl.capture_solvers() as rec:
+            f.solve_stress(when=0, allow_negatives=False)
+        out["xnorm"] = out["rnorm"] = None
+        for c in rec.calls[::-1]:
+            if c["x"] is not None and M.size and len(np.ravel(c["x"])) == Aug.shape[1]:
+                xv = np.array(c["x"], dtype=float).ravel()
+                rhs = np.concatenate([np.zeros(M.shape[0]), [float(M.shape[1])]])
+                out["xnorm"], out["rnorm"] = float(np.linalg.norm(xv)), float(np.linalg.norm(Aug @ xv - rhs))
+                break
         out["tension"] = {}
         for be in fr.internal_big_edges:
             out["tension"].setdefault(tuple(sorted(be.own_cells)), []).append((canon(be.get_vertices_ids()), be.tension))
@@ -69,8 +93,9 @@ def check_pair(res, base, rel, fit, exprs, label, kind):
         import traceback
         res.fail("oracle", f"inference raised {type(ex).__name__}: {str(ex)[:80]} @ " + " <- ".join(traceback.format_exc().strip().splitlines()[-7:-1:2])[-400:], replay)
         return
-    tol = 1e-9 if fit == "taubinSVD" else 1e-3
+    tol = 1e-9
     bad = []
+    fro = 0.0
     mapped_internal = {canon([vmap[x] for x in e]) for e in A["internal"]}
     if mapped_internal != B["internal"]:
         bad.append(f"internal interfaces differ after relabelling: {len(mapped_internal ^ B['internal'])} interfaces in one set only")
@@ -78,18 +103,33 @@ def check_pair(res, base, rel, fit, exprs, label, kind):
     if set(eqA) != set(B["eqs"]):
         bad.append(f"equation sets differ: {len(set(eqA) ^ set(B['eqs']))} (junction, interface) pairs in one system only")
     else:
-        worst = max((max(abs(eqA[k][0] - B["eqs"][k][0]), abs(eqA[k][1] - B["eqs"][k][1])) for k in eqA), default=0.0)
-        if worst > tol:
-            bad.append(f"coefficient pairs differ by {worst:.3g} after relabelling")
+        # per interface: 1e-9 plus four times the order sensitivity of the circle fit measured on that interface (in either labelling)
+        sensA = {canon([vmap[x] for x in e]): v for e, v in A["order_sensitivity"].items()}
+        excess, worst, fro2 = 0.0, 0.0, 0.0
+        for k in eqA:
+            d = max(abs(eqA[k][0] - B["eqs"][k][0]), abs(eqA[k][1] - B["eqs"][k][1]))
+            fro2 += (eqA[k][0] - B["eqs"][k][0]) ** 2 + (eqA[k][1] - B["eqs"][k][1]) ** 2
+            tol_k = tol + 4 * max(sensA.get(k[1], 0.0), B["order_sensitivity"].get(k[1], 0.0))
+            if d - tol_k > excess:
+                excess, worst = d - tol_k, d
+        fro = math.sqrt(fro2)
+        if excess > 0:
+            bad.append(f"coefficient pairs differ by {worst:.3g} after relabelling (beyond the measured order sensitivity of the circle fit)")
     if not (A["determined"] and B["determined"]):
         res.count("system does not determine the tensions uniquely (tension / pressure comparison skipped)")
         A["tension"], A["pressure"], B["pressure"] = {}, None, None
+    # solutions of (constrained) least squares move by at most |E| |x| / smin + |E| |r| / smin^2 (first order) when the matrix moves by E
+    smin = min(A.get("smin", 0.0), B.get("smin", 0.0))
+    if A["determined"] and B["determined"] and A["xnorm"] is not None and smin > 0:
+        ttol = 1e-9 * max(A["cond"], B["cond"]) + 3 * (fro * A["xnorm"] / smin + fro * max(A["rnorm"], B["rnorm"] or 0.0) / smin ** 2)
+    else:
+        ttol = 50e-9 if fit == "taubinSVD" else 2e-2
     for pair, lst in A["tension"].items():
         mp = tuple(sorted(cmap[c] for c in pair))
         got = dict((e, t) for e, t in B["tension"].get(mp, []))
         for e, t in lst:
             me = canon([vmap[x] for x in e])
-            if me not in got or abs(got[me] - t) > (50 * tol if fit == 'taubinSVD' else 2e-2) * (1 + abs(t)):
+            if me not in got or abs(got[me] - t) > ttol * (1 + abs(t)):
                 bad.append(f"tension of the interface between cells {pair} changes from {t} to {got.get(me)}")
                 break
         if bad:
@@ -97,7 +137,7 @@ def check_pair(res, base, rel, fit, exprs, label, kind):
     if A["pressure"] is not None and B["pressure"] is not None:
         worst = max(abs(B["pressure"][cmap[c]] - p) for c, p in A["pressure"].items())
         sc = 1 + max(abs(p) for p in A["pressure"].values())
-        if worst > (200 * tol if fit == 'taubinSVD' else 5e-2) * sc:
+        if worst > max(200e-9, 100 * ttol) * sc:
             c = max(A["pressure"], key=lambda c: abs(B["pressure"][cmap[c]] - A["pressure"][c]))
             bad.append(f"pressure of physical cell {c} changes from {A['pressure'][c]} to {B['pressure'][cmap[c]]}")
     elif (A["pressure"] is None) != (B["pressure"] is None) and A["determined"] and B["determined"]:
